@@ -30,6 +30,9 @@ PROBES = [
     "offer_and_deadline_in_one_epoch",
     "converged_checks",
     "disturbance_at_recorded_instant",
+    "noncyclic_offerer",
+    "watcher_restarted_under_noncyclic_offerer",
+    "stop_start_same_iteration",
 ]
 RUNS = {"quick": 8000, "thorough": 1000000}
 OFFS = [-1e-4, 0.0, 1e-4]
@@ -362,6 +365,13 @@ def check(plan, res):
     probes["stalls"] = res.stats.get("stall", 0)
     if plan.get("aligned"):
         probes["disturbance_at_recorded_instant"] = 1
+    if not cfg["nodes"]["A"]["timings"].get("CYCLIC_OFFER_DELAY", 1):
+        probes["noncyclic_offerer"] = 1
+        if B.inc >= 2 and A.inc == 1:
+            probes["watcher_restarted_under_noncyclic_offerer"] = 1
+    nops = [o for o in plan["ops"] if o["k"] == "node"]
+    if any(a["t"] == b["t"] and a["n"] == b["n"] and a["f"] == "stop" and b["f"] == "start" for a, b in zip(nops, nops[1:])):
+        probes["stop_start_same_iteration"] = 1
     # crash between Subscribe and its acknowledgement
     crashes = [e[2] for e in res.log if e[4] == "crash"]
     if crashes:
